@@ -98,7 +98,7 @@ func (instr *InstrGotoTable) MarshalBinary() (data []byte, err error) {
 
 	b := make([]byte, 4)
 	b[0] = instr.TableId
-	copy(b[3:], instr.pad)
+	copy(b[1:], instr.pad)
 
 	data = append(data, b...)
 	return
